@@ -413,6 +413,7 @@ def run(ctx: Context, rep) -> None:
     # that a later write or close() reads, and its error paths do not touch
     # the writer
     check_writer_state(ctx, rep, "C18.state")
+    check_dtype_gates(ctx, rep, "C18.gate")
     # examples accepted before a rejected one stay reachable even when the
     # rejection propagates out of the `with` block
     from sa.rules import shared as _sh18
@@ -426,6 +427,74 @@ def run(ctx: Context, rep) -> None:
     _c01_18.check_npz_save(ctx, rep, "C18.npz-save")
     _shm.check_no_shared_class_state(ctx, rep, "C18.class-state")
     _shm.check_assert_pure(ctx, rep, "C18.assert")
+
+def check_dtype_gates(ctx: Context, rep, rule: str) -> None:
+    """An accepted write stays readable also for foreign dtypes and for
+    declarations a format does not support: (a) the TFRecord writer stores
+    into a typed list (Int64List / FloatList) only after a gate on the
+    value's dtype that raises (tf.train.Int64List silently DROPS float
+    values: the example is written with an empty feature and the shard no
+    longer parses); (b) the FlatBuffers writer, whose reader decodes fixed-
+    width items only, refuses variable-size declarations (str / bytes) before
+    it touches the builder."""
+    rep.rule(
+        rule,
+        "to_tfrecord, specialised per integer dtype: every int64_feature "
+        "call is preceded on every path by a test that calls "
+        "numpy.can_cast (or compares the value's dtype kind) and raises; "
+        "save_numpy_vector_as_bytearray, specialised on attribute.dtype in "
+        "{str, bytes}: no builder call is reachable (the function raises)")
+    from sa import dtypeval
+    TFD = "sedpack.io.tfrec.tfdata"
+    to = ctx.fn(f"{TFD}:to_tfrecord")
+    mod = ctx.repo.module(TFD)
+    # (only the integer container: a FloatList converts any real number, a
+    # rounded value stays readable - the Int64List is the one that drops)
+    for d, feat in (("int32", "int64_feature"), ("uint8", "int64_feature"),
+                    ("int64", "int64_feature"), ("int8", "int64_feature")):
+        ev = dtypeval.DtypeEval("attribute.dtype", d, mod.globals)
+        cfg_d = CFG(to, env={"attribute.dtype": d}, oracle=ev.oracle)
+        live = cfg_d.reachable([cfg_d.entry],
+                               follow=lambda a, b, lab: lab != "exc")
+        feats = [n for n in cfg_d.calls() if n in live and isinstance(
+            n.ast.func, ast.Name) and n.ast.func.id == feat]
+        gates = [n for n in cfg_d.nodes if n in live and n.kind == "test" and
+                 n.ast is not None and any(
+                     (isinstance(x, ast.Call) and (dotted(x.func) or "").endswith(
+                         "can_cast")) or (isinstance(x, ast.Attribute) and
+                                          x.attr == "kind")
+                     for x in ast.walk(n.ast)) and any(
+                         isinstance(m.ast, ast.Raise) for m in cfg_d.reachable(
+                             [s for s, lab in n.succ if lab in ("true", "false")],
+                             follow=lambda a, b, lab: lab != "exc")
+                         if m.kind == "stmt" and m.ast is not None)]
+        ungated = cfg_d.always_before(gates, feats, normal_only=True) \
+            if feats else []
+        rep.ob(rule, bool(feats) and not ungated, loc=to.loc(
+            feats[0].ast) if feats else to.loc(), where=to.qualname,
+               construct=f"{d}: <dtype gate that raises> ... {feat}(..)",
+               message="values of a foreign kind (floats for an integer "
+               "attribute) reach the typed list unchecked: TensorFlow drops "
+               "them silently and the shard becomes undecodable")
+    sv = ctx.fn("sedpack.io.shard.shard_writer_flatbuffer:"
+                "ShardWriterFlatBuffer.save_numpy_vector_as_bytearray")
+    wmod = sv.module
+    for d in ("str", "bytes"):
+        ev = dtypeval.DtypeEval("attribute.dtype", d, wmod.globals)
+        cfg_s = CFG(sv, env={"attribute.dtype": d}, oracle=ev.oracle)
+        live = cfg_s.reachable([cfg_s.entry],
+                               follow=lambda a, b, lab: lab != "exc")
+        builder_calls = [n for n in cfg_s.calls() if n in live and isinstance(
+            n.ast.func, ast.Attribute) and dotted(n.ast.func.value) == "builder"]
+        rep.ob(rule, not builder_calls, loc=sv.loc(
+            builder_calls[0].ast) if builder_calls else sv.loc(),
+               where=sv.qualname,
+               construct=f"attribute.dtype = {d!r}: builder reached: "
+               f"{bool(builder_calls)}",
+               message="the FlatBuffers writer accepts a variable-size "
+               "declaration its reader cannot decode (np.dtype('str').itemsize "
+               "is 0): every accepted write makes the shard unreadable")
+
 
 def check_writer_state(ctx: Context, rep, rule: str) -> None:
     rep.rule(
@@ -592,6 +661,17 @@ _NP = "src/sedpack/io/shard/shard_writer_np.py"
 _FB = "src/sedpack/io/shard/shard_writer_flatbuffer.py"
 _SH = "src/sedpack/io/shard/shard.py"
 SELFTESTS = [
+    dict(rule="C18.gate", name="tfrec-int-gate-dropped", expect="fire",
+         path="src/sedpack/io/tfrec/tfdata.py",
+         old='            if not np.can_cast(value.dtype, np.int64, casting="same_kind"):\n',
+         new='            if False:\n'),
+    dict(rule="C18.gate", name="tfrec-int-gate-kind-twin", expect="silent",
+         path="src/sedpack/io/tfrec/tfdata.py",
+         old='            if not np.can_cast(value.dtype, np.int64, casting="same_kind"):\n',
+         new='            if value.dtype.kind not in "iub":\n'),
+    dict(rule="C18.gate", name="fb-accepts-str-bytes", expect="fire", path=_FB,
+         old='        if attribute.dtype in ("str", "bytes"):\n',
+         new='        if attribute.dtype in ():\n'),
     dict(rule="C18.publish", name="no-publish-when-block-raised", expect="fire",
          path="src/sedpack/io/dataset_filler.py",
          old="        if self._auto_update_dataset:\n            # Note that when",
